@@ -358,7 +358,10 @@ func famUnary(quick bool, types []fl.TInt) []*prog.Case {
 // does allow it, the running program must see the same value.
 func famImplicit(quick bool, types []fl.TInt) []*prog.Case {
 	var out []*prog.Case
-	positions := []string{"let", "assign", "arg", "return", "field", "elem", "method-arg", "second-arg"}
+	// the *-over positions store into a place whose old value has every upper byte different
+	// from the extension of the new one
+	positions := []string{"let", "assign", "arg", "return", "field", "elem", "method-arg", "second-arg",
+		"assign-over", "ref-write", "ref-param-write", "field-assign", "elem-assign", "dyn-elem-assign", "append"}
 	for _, sT := range types {
 		for _, tT := range types {
 			if sT == tT || !tT.Fits(sT.Min()) || !tT.Fits(sT.Max()) {
@@ -397,6 +400,37 @@ func famImplicit(quick bool, types []fl.TInt) []*prog.Case {
 						case "elem":
 							body = append(body, &fl.Let{Name: "e", T: fl.TArr{N: 2, Elem: tT}, Init: &fl.ArrLit{Elems: []fl.Expr{a, fl.L(tT, 1)}}},
 								fl.P(fl.Ix(fl.V("e"), fl.L(fl.I32, 0))), fl.P(fl.Ix(fl.V("e"), fl.L(fl.I32, 1))))
+						case "assign-over", "ref-write", "ref-param-write", "field-assign", "elem-assign", "dyn-elem-assign", "append":
+							old := tT.Max()
+							if v.Sign() >= 0 && tT.Signed {
+								old = tT.Min()
+							}
+							oldL := fl.LB(tT, old)
+							b := fl.V("b")
+							switch pos {
+							case "assign-over":
+								body = append(body, &fl.Let{Name: "b", T: tT, Init: oldL}, fl.P(b), &fl.Assign{LHS: b, RHS: a}, fl.P(b))
+							case "ref-write":
+								body = append(body, &fl.Let{Name: "b", T: tT, Init: oldL}, fl.P(b),
+									&fl.Block{Body: []fl.Stmt{&fl.Let{Name: "r", T: fl.TRef{Elem: tT, Mut: true}, Init: &fl.Borrow{X: b, Mut: true}}, &fl.Assign{LHS: fl.V("r"), RHS: a}, fl.P(fl.V("r"))}}, fl.P(b))
+							case "ref-param-write":
+								p.Funcs = append(p.Funcs, &fl.Func{Name: k.N("setr"), Params: []fl.Param{{"r", fl.TRef{Elem: tT, Mut: true}}, {"v", sT}}, Body: []fl.Stmt{&fl.Assign{LHS: fl.V("r"), RHS: fl.V("v")}}})
+								body = append(body, &fl.Let{Name: "b", T: tT, Init: oldL}, fl.P(b), &fl.ExprStmt{X: fl.C(k.N("setr"), &fl.Borrow{X: b, Mut: true}, a)}, fl.P(b))
+							case "field-assign":
+								st := &fl.TStruct{Name: k.N("Wd"), Fields: []fl.Field{{"P", fl.I8}, {"W", tT}, {"Q", fl.I8}}}
+								p.Structs = append(p.Structs, st)
+								body = append(body, &fl.Let{Name: "s", Init: &fl.StructLit{T: st, Vals: []fl.Expr{fl.L(fl.I8, 1), oldL, fl.L(fl.I8, 2)}}}, &fl.Assign{LHS: fl.F(fl.V("s"), "W"), RHS: a},
+									fl.P(fl.F(fl.V("s"), "W")), fl.P(fl.F(fl.V("s"), "P")), fl.P(fl.F(fl.V("s"), "Q")))
+							case "elem-assign":
+								body = append(body, &fl.Let{Name: "e", T: fl.TArr{N: 3, Elem: tT}, Init: &fl.ArrLit{Elems: []fl.Expr{oldL, oldL, oldL}}}, &fl.Assign{LHS: fl.Ix(fl.V("e"), fl.L(fl.I32, 1)), RHS: a},
+									fl.P(fl.Ix(fl.V("e"), fl.L(fl.I32, 0))), fl.P(fl.Ix(fl.V("e"), fl.L(fl.I32, 1))), fl.P(fl.Ix(fl.V("e"), fl.L(fl.I32, 2))))
+							case "dyn-elem-assign":
+								body = append(body, &fl.Let{Name: "e", T: fl.TDyn{Elem: tT}, Init: &fl.ArrLit{Elems: []fl.Expr{oldL, oldL, oldL}}}, &fl.Assign{LHS: fl.Ix(fl.V("e"), fl.L(fl.I32, -2)), RHS: a},
+									fl.P(fl.Ix(fl.V("e"), fl.L(fl.I32, 0))), fl.P(fl.Ix(fl.V("e"), fl.L(fl.I32, 1))), fl.P(fl.Ix(fl.V("e"), fl.L(fl.I32, 2))))
+							case "append":
+								body = append(body, &fl.Let{Name: "e", T: fl.TDyn{Elem: tT}, Init: &fl.ArrLit{Elems: []fl.Expr{oldL}}}, &fl.Append{Arr: fl.V("e"), Val: a}, &fl.Append{Arr: fl.V("e"), Val: oldL},
+									fl.P(fl.Ix(fl.V("e"), fl.L(fl.I32, 0))), fl.P(fl.Ix(fl.V("e"), fl.L(fl.I32, 1))), fl.P(fl.Ix(fl.V("e"), fl.L(fl.I32, 2))))
+							}
 						case "method-arg":
 							st := &fl.TStruct{Name: k.N("Rc"), Fields: []fl.Field{{"A", fl.I32}}}
 							p.Structs = append(p.Structs, st)
